@@ -366,6 +366,17 @@ def run(tier):
         else:
             if rc != 1 or not err.strip():
                 col.viol("exit-status:-e:error-not-reported", "bloc -e %s: exit %s stderr %r although the library reports %s" % (e, rc, err[:200], ex_step), det)
+    # a program file that cannot be read, an output file that cannot be written: message on standard error, failure status,
+    # nothing on standard output
+    for argv, what in ((["/nonexistent/dir/prog.bloc"], "missing-program"), ([os.path.join(d, "no-such-file.bloc"), "a"], "missing-program-args"),
+                       (["--out=/nonexistent/dir/out.txt", os.path.join(d, "p0.bloc")], "unwritable-out")):
+        rc, out, err, _ = run_cli((exe, env, argv, None, None))
+        col.count(("nofile", what, rc))
+        det = {"argv": argv, "exit": rc, "stdout": out[:300].decode("latin-1"), "stderr": err[:300].decode("latin-1")}
+        if rc in (0, "timeout") or (isinstance(rc, int) and (rc < 0 or rc > 1)):
+            col.viol("nofile:exit:%s" % what, "bloc %s: exit %s" % (" ".join(argv), rc), det)
+        if out.strip() or not err.strip():
+            col.viol("nofile:message:%s" % what, "bloc %s: the error message belongs on standard error; stdout %r stderr %r" % (" ".join(argv), out[:120], err[:120]), det)
     interactive_pass(col, exe, env, INTERACTIVE)
     # save / load: the hand-written sessions and the statement programs of the C12 corpus, one physical line each
     from . import c12
